@@ -18,6 +18,9 @@ RULE = ("pipelines phase -> haplotag -> unphase -> haplotagphase through the rea
         "haplotypes (arbitrary PS ids, set-wise flips, some heterozygous records left unphased); the tagged read set is "
         "the phasing read set, a random half of it, or it minus a window (uncovered records). The haplotagphase "
         "input is the `whatshap unphase` output with 0-100% of the phased records put back (partially pre-phased). "
+        "The pre-phased and `unrecognised` streams also write `|` on calls VcfReader does not regard as phased: homozygous "
+        "a|a:PS, a|b without PS key or with PS '.', records without ALT or at a duplicate position (inserted into all "
+        "files), multi-ALT records under --no-mav, a second sample without any read. "
         "L2-only streams: phasings that split a read-connected region into two sets (reads over two sets), phasings "
         "that contradict the reads (mixed votes, gap threshold), non-default --gap-threshold/--cut-poly/--only-indels, "
         "foreign pre-phased calls (flipped order, other PS). A case = one chromosome of one pipeline; it is "
@@ -29,8 +32,9 @@ TRUSTED = [
     "core.Genotype (descending as_vector, is_homozygous), python dict insertion order and stable sort",
     "the float test `100 * (score / total) < gap_threshold` is modelled by the exact rational comparison (agrees with "
     "IEEE double arithmetic for the default threshold 70 whenever total < 2^50)",
-    "record-level skip rules of VcfReader/PhasedVcfWriter (no ALT, duplicate positions, multi-ALT with --no-mav) and "
-    "HP-tag phased input are not modelled; the generated VCFs contain none",
+    "record-level skip rules of VcfReader/PhasedVcfWriter (no ALT, duplicate position, multi-ALT under --no-mav) are "
+    "modelled as a wrapper (haplotagphase_file) that is compared on real runs but about which only the refutation "
+    "witness is proved; HP-tag phased input and the allele-count limit are not modelled; the generated VCFs contain none",
     "L1 decodes the three VCFs and the tagged BAM with pysam; 'reads that cover a variant' = tagged alignments whose "
     "reference span contains the record start",
 ]
@@ -40,8 +44,10 @@ ASSUMPTIONS = [
     "(clause 1 is checked only on cases where the decoded data satisfy this, evaluated in Coq)",
     "a read shows the same allele at a variant in the haplotag run and in the haplotagphase run; reads carry no HP/PS "
     "tags other than those written by haplotag; thresholds at their defaults for L1",
-    "`already phased` = the call is written with `|` (pysam call.phased); the repaired rule is proved for what VcfReader "
-    "recognises as phased (heterozygous, diploid, fully called, PS present)",
+    "`already phased` = the call is written with `|` (pysam call.phased), judged on the real output in three classes: "
+    "what VcfReader recognises as phased with a phase set id (heterozygous, diploid, fully called, PS present, record "
+    "not skipped: proved untouched for the rule now in /repo), heterozygous `|` calls without a PS value, and every other "
+    "`|` call (homozygous, on skipped records); the last two are altered by the current code (refuted, known signatures)",
 ]
 
 HEADER = """From Coq Require Import ZArith List Bool Arith.
@@ -659,6 +665,10 @@ def run_specs(ctx, specs, label):
             raise RuntimeError("pipeline worker crashed:\n" + r["fatal"])
         if "failed" in r:
             step, msg = r["failed"]
+            if "ModuleNotFoundError" in msg or "ImportError" in msg:
+                # the shared scratch build was rebuilt by another process while this check was running
+                raise RuntimeError(f"scratch build unusable while running `whatshap {step}` (rebuilt concurrently?): "
+                                   + msg[-400:])
             ctx.count(("failed", json.dumps(spec, sort_keys=True)), nontrivial=False)
             ctx.violation(f"pipeline:{step}-failed", f"`whatshap {step}` exits non-zero on generated input "
                           f"(spec {spec}): {msg[-600:]}", {"spec": spec})
@@ -705,14 +715,14 @@ def report(ctx, meta, failing):
             spec, c, ch = meta[i]
             alt = altered_prephased(ch, cls)
             what = "; ".join(f"{c}:{p} sample#{si} {fmt_call(a)} -> {fmt_call(b)}" for p, si, a, b in alt[:4])
-            ctx.violation(sig, f"{txt}: {what} (pipeline spec {spec})", {"spec": spec})
+            ctx.violation(sig, f"{txt}: {what} (pipeline spec {spec})", {"spec": spec, "signature": sig})
     for lab, sig, txt in (("L1order", "haplotagphase:order-differs",
                            "a variant phased by haplotagphase has another haplotype order than in the phased VCF that tagged the reads"),
                           ("L1ps", "haplotagphase:ps-differs",
                            "a variant phased by haplotagphase has a phase set that no covering tagged read carries")):
         for i in failing[lab]:
             spec, c, ch = meta[i]
-            ctx.violation(sig, f"{txt} (chromosome {c}, pipeline spec {spec})", {"spec": spec})
+            ctx.violation(sig, f"{txt} (chromosome {c}, pipeline spec {spec})", {"spec": spec, "signature": sig})
     # L2: the code follows the model with the repaired rule (Fixed); a tree that follows Cur is a disagreement
     cur_bad = sorted(set(failing["L2cur"]) | set(failing["L2consCur"]))
     fix_bad = sorted(set(failing["L2fix"]) | set(failing["L2consFix"]))
